@@ -376,14 +376,19 @@ def body_minor(case):
     if int(abs(j) * 11.0) % 5 == 0:
         # an object that described another orbit with the same perihelion passage, was asked for
         # that body's position at this very epoch, and was then given this orbit with set()
-        m = Minor(1.3 * q + 0.1, min(ecc, 0.5), Angle(case["i"] * 0.5 + 3.0), Angle(case["node"] + 20.0),
-                  Angle(case["peri"] + 40.0), t_ep)
+        ai, an, aw = Angle(case["i"] * 0.5 + 3.0), Angle(case["node"] + 20.0), Angle(case["peri"] + 40.0)
+        m = Minor(1.3 * q + 0.1, min(ecc, 0.5), ai, an, aw, t_ep)
         for fn in (m.heliocentric_ecliptical_position, m.geocentric_position):
             try:
                 fn(Epoch(j))
             except ValueError:
                 pass
-        m.set(q, ecc, Angle(case["i"]), Angle(case["node"]), Angle(case["peri"]), t_ep)
+        if int(abs(j) * 11.0) % 2 == 0:
+            # ... and the caller keeps its three Angle objects too, moving them with set()
+            ai.set(case["i"]), an.set(case["node"]), aw.set(case["peri"])
+            m.set(q, ecc, ai, an, aw, t_ep)
+        else:
+            m.set(q, ecc, Angle(case["i"]), Angle(case["node"]), Angle(case["peri"]), t_ep)
     else:
         m = Minor(q, ecc, Angle(case["i"]), Angle(case["node"]), Angle(case["peri"]), t_ep)
     if int(abs(j) * 7.0) % 4 == 0:
